@@ -890,6 +890,64 @@ def rule_ranked_reads(F, R):
     R.floor("R-C10-10", n, 1, "ranked-bin loops")
 
 
+def rule_sweep_coverage(F, R):
+    """R-C10-11: the threshold sweeps of the stump and the hinge walk the sorted (value, sample) list pairwise: the pairs (k, k + 1) examined
+    must be all of k = 0 .. size - 2 - in particular the pair of the two largest values, where the best threshold lies when only the largest
+    value is singled out. From the loop's start value, its bound and the two subscripts: first pair (0, 1), last pair (size - 2, size - 1),
+    step 1, the second subscript one above the first."""
+    n = 0
+    for file, cls in (("src/wlearner/stump.cpp", "nano::stump_wlearner_t"), ("src/wlearner/hinge.cpp", "nano::hinge_wlearner_t")):
+        fits = [f for f in F.functions.values() if f.relfile == file and f.name == "do_fit" and f.cls == cls]
+        for fit in fits:
+            for lam, g in F.lambdas_in(fit):
+                for lp in [x for x in g.nodes() if x["k"] == "for"]:
+                    subs_ = [x for x in walk(lp["c"][lp["r"].index("body")]) if x["k"] in ("idx", "call") and (x["k"] == "idx" or x.get("op") == "[]") and
+                             "m_ivalues" in pp(x["c"][0])]
+                    if len(subs_) < 2:
+                        continue
+                    n += 1
+                    inst = "%s sweep@%d" % (cls.split("::")[-1], lp["l"])
+                    init = lp["c"][lp["r"].index("init")]
+                    vs = [v for v in walk(init) if v["k"] == "var"]
+                    cond = skip(lp["c"][lp["r"].index("cond")])
+                    inc = pp(lp["c"][lp["r"].index("inc")])
+                    IV, SV = sp.Symbol("iv", integer=True), sp.Symbol("sv", integer=True, positive=True)
+                    subst = {}
+                    start = None
+                    ivd = None
+                    for v in vs:
+                        if v.get("c") and "m_ivalues.size()" in pp(v["c"][0]):
+                            subst[v["d"]] = SV
+                        elif v.get("c"):
+                            lit = literal_value(v["c"][0])
+                            if lit is not None and ivd is None:
+                                ivd, start = v["d"], sp.Integer(lit)
+                                subst[v["d"]] = IV
+                    try:
+                        cv = kalg.Conv(g, subst=subst, atoms={"cache.m_ivalues.size()": "sv"}, inline=False)
+                        idxs = sorted({sp.simplify(cv.conv(x["c"][1])) for x in subs_}, key=lambda e: sp.simplify(e - IV))
+                        if ivd is None or cond["k"] != "bin" or cond["op"] not in ("<", "<=") or inc.replace(" ", "") not in ("(++iv)", "(iv++)"):
+                            raise kalg.OutOfFragment("loop header `%s; %s; %s`" % (pp(init)[:30], pp(cond)[:30], inc))
+                        lhs, rhs = cv.conv(cond["c"][0]), cv.conv(cond["c"][1])
+                        rhs = rhs.subs(kalg.sym("sv"), SV) if hasattr(rhs, "subs") else rhs
+                        # largest iv with lhs(iv) < rhs (lhs is iv + const)
+                        cst = sp.simplify(lhs - IV)
+                        last = sp.simplify(rhs - cst - (1 if cond["op"] == "<" else 0))
+                    except kalg.OutOfFragment as e:
+                        R.incomplete("R-C10-11", inst, g.loc(lp), str(e))
+                        continue
+                    ok = len(idxs) == 2 and sp.simplify(idxs[1] - idxs[0]) == 1 and sp.simplify(idxs[0].subs(IV, start)) == 0 and \
+                        sp.simplify(idxs[0].subs(IV, last) - (SV - 2)) == 0
+                    first_pair = sp.simplify(idxs[0].subs(IV, start)) if idxs else None
+                    last_pair = sp.simplify(idxs[0].subs(IV, last)) if idxs else None
+                    R.check(ok, "R-C10-11", inst, g.loc(lp), "the sweep examines the adjacent pairs (0,1) .. (size-2, size-1) of the sorted values",
+                            "the sweep examines the pairs starting at %s and ending at %s (subscripts %s for iv = %s .. %s): %s" % (
+                                first_pair, last_pair, [str(e) for e in idxs], start, last,
+                                "the pair of the two largest values (size-2, size-1) is never examined - the threshold that singles out the largest value is never scored"
+                                if last_pair is not None and sp.simplify(last_pair - (SV - 2)) != 0 else "the first pairs are skipped"))
+    R.floor("R-C10-11", n, 2, "threshold sweeps (stump, hinge)")
+
+
 def run(ctx):
     R = ctx.report
     F = ctx.facts(TUS)
@@ -903,3 +961,4 @@ def run(ctx):
     rule_merge(F, R)
     rule_bin_gain(F, R)
     rule_ranked_reads(F, R)
+    rule_sweep_coverage(F, R)
